@@ -60,6 +60,45 @@ CLAIMS = {
         "note": "standard methods only; header menu of 15 cells (thorough); version 1.1 in header cells",
         "technique": "bounded model checking of the real code (Kani/CBMC): exhaustive symbolic table over finite menus",
     },
+    "C06": {
+        "text": "The real BodyReader::for_response is decided against the RFC decision list for every status 100..=999, every "
+                "standard method and both response versions in each of the 56 cells of an 8 x 7 Content-Length x Transfer-Encoding "
+                "menu; the successor selection after the head is decided through the branch predicates (need_response_body, "
+                "is_redirect) for all readers / status codes.",
+        "design_ref": "DESIGN.md §3 C06",
+        "note": "header strings limited to the menu; successor: predicates proven for all inputs, Flow::<RecvResponse>::proceed itself "
+                "cannot be executed by CBMC 6.11 (internal error, see DESIGN.md §8) - its two branch conditions are what is proven",
+        "technique": "bounded model checking of the real code (Kani/CBMC): symbolic status/method/version per concrete header-menu cell",
+    },
+    "C07": {
+        "text": "One call of the real Dechunker::parse_input (all handlers real) from each state of the representation invariant, "
+                "on every window of up to 5 (7) symbolic bytes that is a prefix of a valid coding continuing from that state, into "
+                "0..=4 output bytes, is checked against a byte-at-a-time reference automaton of the chunked grammar: consumed prefix = "
+                "whole tokens ending in the post-state's position, output = exactly the data bytes, never past the final CRLF, ended "
+                "iff it was consumed, never an error, progress when a token is complete.",
+        "design_ref": "DESIGN.md §3 C07",
+        "note": "single inductive step (the invariant is re-established, so sequences of calls are covered); size lines <= 3 (5) "
+                "characters; the outer read loop of BodyReader (boundary stop) is covered by c07_read_chunked_*",
+        "technique": "bounded model checking of the real code (Kani/CBMC): refinement check against a reference automaton, single inductive step from every state of the invariant",
+    },
+    "C09": {
+        "text": "Per-edge harnesses on constructed flows: readiness predicates of every state for all their inputs; every "
+                "successful edge out of SendRequest / Await100 / SendBody with the successor's holder kind and accessors; "
+                "construction (Flow::new) and send_body_despite_method establish the invariant. Edges out of RecvResponse / RecvBody and "
+                "premature (None) advances are covered through their branch predicates only (CBMC 6.11 internal error on those bodies).",
+        "design_ref": "DESIGN.md §3 C09",
+        "note": "state-space per edge as listed in the evidence; MAX_EXTRA_HEADERS shrunk to 4 in the verification build",
+        "technique": "bounded model checking of the real code (Kani/CBMC): one inductive step per state-graph edge from constructed states",
+    },
+    "C10": {
+        "text": "Verdict = list non-empty is decided for all 32 subsets of recorded conditions in both end states; the push sites at "
+                "construction (Http10, ClientConnectionClose) are decided on concrete request cells; capacity for all five conditions; "
+                "the Not100Continue / ServerConnectionClose / CloseDelimitedBody push sites are covered by the C11 / C05 harnesses and "
+                "the branch predicate of RecvResponse::proceed.",
+        "design_ref": "DESIGN.md §3 C10",
+        "note": "composition (list only grows, one push site per condition) argued in DESIGN.md",
+        "technique": "bounded model checking of the real code (Kani/CBMC): per-push-site lemmas + exhaustive symbolic subsets for the verdict",
+    },
 }
 
 PENDING = "check not built yet in this session (planned, see DESIGN.md §3); nothing is claimed"
